@@ -121,7 +121,7 @@ struct ScriptTask : Task {
     else {
       int s = def->base;
       for (size_t i = 0; i < reqs.size(); ++i) if (reqs[i].kind != "follow" && def->proj.count(reqs[i].k)) s += got[i];
-      for (auto& d : def->disc) s += ext[d];
+      for (auto& d : def->disc) if (prog[d].leaf) s += ext[d];     // a discovered derived key is reported, not read
       pc.value = s % NVALS; pc.force = def->force; pc.disc = def->disc; pc.writesOut = def->out;
     }
     if (mode == SYNC) { doComplete(pc); return; }
